@@ -75,7 +75,7 @@ Proof. apply nth_error_In. Qed.
 Ltac fin := try assumption; try reflexivity; try discriminate;
             try (let Hx := fresh in intros Hx; discriminate Hx); try (intros; reflexivity).
 
-Lemma step_inv s a s' : Inv s -> step true s a = Some s' -> Inv s'.
+Lemma step_inv s a s' : Inv s -> step true true s a = Some s' -> Inv s'.
 Proof.
   intros [Ha Hp Hn Hm Hrw Hd He] H. destruct a; cbn [step] in H.
   - (* post *)
@@ -150,34 +150,34 @@ Proof.
   - intros Hx. apply R in Hx. discriminate.
 Qed.
 
-Lemma run_inv_from tr : forall s, Inv s -> Inv (run true s tr).
+Lemma run_inv_from tr : forall s, Inv s -> Inv (run true true s tr).
 Proof.
   induction tr as [|a r IH]; intros s I; cbn [run]; [exact I|].
-  destruct (step true s a) eqn:E; [apply IH; eapply step_inv; eassumption|apply IH; exact I].
+  destruct (step true true s a) eqn:E; [apply IH; eapply step_inv; eassumption|apply IH; exact I].
 Qed.
 
-Theorem run_inv a w k tr : Inv (run true (init a w k) tr).
+Theorem run_inv a w k tr : Inv (run true true (init a w k) tr).
 Proof. apply run_inv_from, init_inv. Qed.
 
-Lemma run_strict_app rc t1 : forall s t2 s1, run_strict rc s t1 = Some s1 ->
-  run_strict rc s (t1 ++ t2) = run_strict rc s1 t2.
+Lemma run_strict_app rc du t1 : forall s t2 s1, run_strict rc du s t1 = Some s1 ->
+  run_strict rc du s (t1 ++ t2) = run_strict rc du s1 t2.
 Proof.
   induction t1 as [|a r IH]; intros s t2 s1 H; cbn in *.
   - injection H as <-. reflexivity.
-  - destruct (step rc s a); [apply IH; exact H|discriminate].
+  - destruct (step rc du s a); [apply IH; exact H|discriminate].
 Qed.
-Lemma run_strict_run rc tr : forall s s', run_strict rc s tr = Some s' -> run rc s tr = s'.
+Lemma run_strict_run rc du tr : forall s s', run_strict rc du s tr = Some s' -> run rc du s tr = s'.
 Proof.
   induction tr as [|a r IH]; intros s s' H; cbn in *.
   - injection H as <-. reflexivity.
-  - destruct (step rc s a); [apply IH; exact H|discriminate].
+  - destruct (step rc du s a); [apply IH; exact H|discriminate].
 Qed.
-Lemma strict_inv tr s s' : Inv s -> run_strict true s tr = Some s' -> Inv s'.
-Proof. intros I H. rewrite <- (run_strict_run _ _ _ _ H). apply run_inv_from. exact I. Qed.
+Lemma strict_inv tr s s' : Inv s -> run_strict true true s tr = Some s' -> Inv s'.
+Proof. intros I H. rewrite <- (run_strict_run _ _ _ _ _ H). apply run_inv_from. exact I. Qed.
 
 (* mutual exclusion of the stoppers, in every reachable state *)
 Theorem stops_mutually_exclusive a w k tr :
-  let s := run true (init a w k) tr in
+  let s := run true true (init a w k) tr in
   cc (stops s) <= 1 /\ (mtx s = true <-> In RCheck (stops s)).
 Proof.
   intros s. pose proof (run_inv a w k tr) as I. fold s in I. pose proof (i_mtx s I) as Hm.
@@ -200,12 +200,12 @@ Proof.
 Qed.
 
 Theorem drained_when_stopped a w k tr :
-  let s := run true (init a w k) tr in worker s = false -> log s = accepted s.
+  let s := run true true (init a w k) tr in worker s = false -> log s = accepted s.
 Proof. intros s. apply inv_drained, run_inv. Qed.
 
 (* whenever the stop call of ANY stopper has returned (and async mode was not switched on again) *)
 Theorem drained_when_reset_done a w k tr :
-  let s := run true (init a w k) tr in In RDone (stops s) -> worker s = false /\ log s = accepted s.
+  let s := run true true (init a w k) tr in In RDone (stops s) -> worker s = false /\ log s = accepted s.
 Proof.
   intros s Hr. pose proof (run_inv a w k tr) as I. fold s in I.
   split; [apply (i_done s I Hr)|apply inv_drained; [exact I|apply (i_done s I Hr)]].
@@ -213,17 +213,17 @@ Qed.
 
 (* a destroyed worker is never touched *)
 Theorem no_worker_activity_after_stop a w k tr :
-  let s := run true (init a w k) tr in worker s = false ->
-  step true s ATake = None /\ step true s ADone = None /\ queue s = [] /\ inflight s = None /\ pending s = 0.
+  let s := run true true (init a w k) tr in worker s = false ->
+  step true true s ATake = None /\ (forall ok, step true true s (ADone ok) = None) /\ queue s = [] /\ inflight s = None /\ pending s = 0.
 Proof.
   intros s Hw. pose proof (run_inv a w k tr) as I. fold s in I.
   destruct (i_now s I Hw) as [Hq Hi]. pose proof (i_pend s I) as Hp. rewrite Hq, Hi in Hp.
   repeat split; try assumption; cbn [step].
   - rewrite Hw. destruct (app s); reflexivity.
-  - rewrite Hi. reflexivity.
+  - intros ok. rewrite Hi. reflexivity.
 Qed.
 
-Theorem log_prefix a w k tr : let s := run true (init a w k) tr in exists rest, accepted s = log s ++ rest.
+Theorem log_prefix a w k tr : let s := run true true (init a w k) tr in exists rest, accepted s = log s ++ rest.
 Proof. intros s. pose proof (run_inv a w k tr) as I. fold s in I. eexists. apply (i_acc s I). Qed.
 
 Lemma NoDup_app_l (A : Type) (l r : list A) : NoDup (l ++ r) -> NoDup l.
@@ -234,7 +234,7 @@ Proof.
 Qed.
 
 Theorem never_twice a w k tr :
-  let s := run true (init a w k) tr in NoDup (accepted s) -> NoDup (log s).
+  let s := run true true (init a w k) tr in NoDup (accepted s) -> NoDup (log s).
 Proof.
   intros s H. destruct (log_prefix a w k tr) as [rest E]. fold s in E. rewrite E in H.
   eapply NoDup_app_l; exact H.
@@ -249,30 +249,30 @@ Ltac step_cases H :=
          end.
 
 (* ------------------------------------------------------------------ monotonicity ------------- *)
-Lemma step_accepted_mono rc s a s' : step rc s a = Some s' -> exists rest, accepted s' = accepted s ++ rest.
+Lemma step_accepted_mono rc du s a s' : step rc du s a = Some s' -> exists rest, accepted s' = accepted s ++ rest.
 Proof.
   intros H. destruct a; step_cases H; injection H as <-; cbn;
     try (eexists; reflexivity); exists []; rewrite app_nil_r; reflexivity.
 Qed.
 
-Lemma run_accepted_mono rc tr : forall s, exists rest, accepted (run rc s tr) = accepted s ++ rest.
+Lemma run_accepted_mono rc du tr : forall s, exists rest, accepted (run rc du s tr) = accepted s ++ rest.
 Proof.
   induction tr as [|a r IH]; intros s; cbn [run]; [exists []; rewrite app_nil_r; reflexivity|].
-  destruct (step rc s a) eqn:E; [|apply IH].
-  destruct (step_accepted_mono _ _ _ _ E) as [r1 E1]. destruct (IH s0) as [r2 E2].
+  destruct (step rc du s a) eqn:E; [|apply IH].
+  destruct (step_accepted_mono _ _ _ _ _ E) as [r1 E1]. destruct (IH s0) as [r2 E2].
   exists (r1 ++ r2). rewrite E2, E1, app_assoc. reflexivity.
 Qed.
 
-Theorem post_without_worker_is_synchronous rc s m s' :
-  worker s = false -> step rc s (APost m) = Some s' ->
+Theorem post_without_worker_is_synchronous rc du s m s' :
+  worker s = false -> step rc du s (APost m) = Some s' ->
   log s' = log s ++ [m] /\ queue s' = queue s /\ pending s' = pending s.
 Proof.
   intros Hw H. cbn [step] in H. destruct (mtx s); [discriminate|]. rewrite Hw in H.
   injection H as <-. cbn. auto.
 Qed.
 
-Theorem post_with_worker_is_queued rc s m s' :
-  worker s = true -> step rc s (APost m) = Some s' ->
+Theorem post_with_worker_is_queued rc du s m s' :
+  worker s = true -> step rc du s (APost m) = Some s' ->
   queue s' = queue s ++ [m] /\ pending s' = S (pending s) /\ log s' = log s /\ stops s' = stops s.
 Proof.
   intros Hw H. cbn [step] in H. destruct (mtx s); [discriminate|]. rewrite Hw in H.
@@ -280,11 +280,11 @@ Proof.
 Qed.
 
 Theorem accepted_is_never_dropped s m s' tr :
-  Inv s -> step true s (APost m) = Some s' -> worker (run true s' tr) = false -> In m (log (run true s' tr)).
+  Inv s -> step true true s (APost m) = Some s' -> worker (run true true s' tr) = false -> In m (log (run true true s' tr)).
 Proof.
   intros I H Hw. assert (I' : Inv s') by (eapply step_inv; eassumption).
   pose proof (run_inv_from tr s' I') as I2. rewrite (inv_drained _ I2 Hw).
-  destruct (run_accepted_mono true tr s') as [rest E]. rewrite E. apply in_or_app. left.
+  destruct (run_accepted_mono true true tr s') as [rest E]. rewrite E. apply in_or_app. left.
   cbn [step] in H. destruct (mtx s); [discriminate|]. destruct (worker s); injection H as <-; cbn;
     apply in_or_app; right; left; reflexivity.
 Qed.
@@ -292,8 +292,8 @@ Qed.
 (* moveToOwnThread on a handler that is already asynchronous (a second configure(async=true)) is
    idempotent: the step, when enabled, returns the very same state — backlog, pending count, stoppers
    untouched — and inserting it anywhere in a history changes nothing *)
-Theorem move_again_is_idempotent rc s :
-  worker s = true -> (mtx s = false -> step rc s AMove = Some s) /\ (forall s', step rc s AMove = Some s' -> s' = s).
+Theorem move_again_is_idempotent rc du s :
+  worker s = true -> (mtx s = false -> step rc du s AMove = Some s) /\ (forall s', step rc du s AMove = Some s' -> s' = s).
 Proof.
   intros Hw. cbn [step]. rewrite Hw. destruct (mtx s); split.
   - intros H; discriminate.
@@ -301,7 +301,7 @@ Proof.
   - reflexivity.
   - intros s' E. injection E as <-. reflexivity.
 Qed.
-Theorem move_again_changes_nothing rc s tr : worker s = true -> run rc s (AMove :: tr) = run rc s tr.
+Theorem move_again_changes_nothing rc du s tr : worker s = true -> run rc du s (AMove :: tr) = run rc du s tr.
 Proof. intros Hw. cbn [run step]. rewrite Hw. destruct (mtx s); reflexivity. Qed.
 
 (* ------------------------------------------------------------------ concurrent stops --------- *)
@@ -309,9 +309,9 @@ Proof. intros Hw. cbn [run step]. rewrite Hw. destruct (mtx s); reflexivity. Qed
    the interleaving, no stopper is in the error state, and the step that quits/waits/clears is only
    ever enabled with a live thread *)
 Theorem concurrent_stops_safe a w k tr :
-  let s := run true (init a w k) tr in
+  let s := run true true (init a w k) tr in
   errorb s = false /\
-  (forall i s', step true s (AResetCheck i) = Some s' -> worker s = true /\ errorb s' = false).
+  (forall i s', step true true s (AResetCheck i) = Some s' -> worker s = true /\ errorb s' = false).
 Proof.
   intros s. pose proof (run_inv a w k tr) as I. fold s in I. split.
   - apply errorb_false. apply (i_noerr s I).
@@ -324,7 +324,7 @@ Qed.
 (* the repaired wake-up, for an arbitrary state: a stopper that finds no thread after its sleep
    returns at once: it takes no mutex and touches neither queue nor log nor counters *)
 Theorem wake_without_thread_returns s i s' :
-  worker s = false -> step true s (AResetWake i) = Some s' ->
+  worker s = false -> step true true s (AResetWake i) = Some s' ->
   nth_error (stops s') i = Some RDone /\ mtx s' = false /\ worker s' = false /\ queue s' = queue s /\
   inflight s' = inflight s /\ pending s' = pending s /\ log s' = log s /\ accepted s' = accepted s /\ app s' = app s.
 Proof.
@@ -335,11 +335,11 @@ Qed.
 
 (* before the repair (no re-test): two stoppers reach the error step *)
 Definition two_stops_schedule : list act :=
-  [APost 0; AResetStart 0; AResetCheck 0; AResetStart 1; AResetCheck 1; ATake; ADone;
+  [APost 0; AResetStart 0; AResetCheck 0; AResetStart 1; AResetCheck 1; ATake; ADone true;
    AResetWake 0; AResetCheck 0; AResetWake 1; AResetCheck 1].
 Theorem concurrent_stops_refuted_before_repair :
   rechecks_after_relock pre_repair_skeleton = false /\
-  exists s, run_strict (rechecks_after_relock pre_repair_skeleton) (init true true 2) two_stops_schedule = Some s
+  exists s, run_strict (rechecks_after_relock pre_repair_skeleton) true (init true true 2) two_stops_schedule = Some s
             /\ errorb s = true /\ worker s = false.
 Proof. split; [reflexivity|]. eexists. split; [vm_compute; reflexivity|]. split; reflexivity. Qed.
 
@@ -352,7 +352,7 @@ Proof.
   repeat split; discriminate.
 Qed.
 
-Lemma stuck_step s a s' : Inv s -> stuck_b s = true -> step true s a = Some s' -> stuck_b s' = true.
+Lemma stuck_step s a s' : Inv s -> stuck_b s = true -> step true true s a = Some s' -> stuck_b s' = true.
 Proof.
   intros I S H. apply stuck_b_spec in S. destruct S as (Ha & Hw & Hi & Hq). apply stuck_b_spec.
   assert (Hp : 0 < pending s) by (rewrite (i_pend s I); destruct (queue s); [contradiction|cbn; lia]).
@@ -372,22 +372,22 @@ Qed.
 (* from a state with a backlog, an idle worker and no application object: the worker can never be
    stopped, no stop call of any stopper ever returns *)
 Theorem stuck_forever tr : forall s, Inv s -> stuck_b s = true ->
-  stuck_b (run true s tr) = true /\ worker (run true s tr) = true /\ ~ In RDone (stops (run true s tr)).
+  stuck_b (run true true s tr) = true /\ worker (run true true s tr) = true /\ ~ In RDone (stops (run true true s tr)).
 Proof.
   induction tr as [|a r IH]; intros s I S; cbn [run].
   - split; [exact S|]. apply stuck_b_spec in S. destruct S as (_ & Hw & _). split; [exact Hw|].
     intros Hr. rewrite (i_done s I Hr) in Hw. discriminate.
-  - destruct (step true s a) eqn:E; [apply IH; [eapply step_inv; eassumption|eapply stuck_step; eassumption]|apply IH; assumption].
+  - destruct (step true true s a) eqn:E; [apply IH; [eapply step_inv; eassumption|eapply stuck_step; eassumption]|apply IH; assumption].
 Qed.
 
 Theorem reset_hangs_without_app :
-  exists s, (exists tr, s = run true (init true true 1) tr) /\ In RCheck (stops s) /\
-            forall tr, ~ In RDone (stops (run true s tr)) /\ log (run true s tr) <> accepted (run true s tr).
+  exists s, (exists tr, s = run true true (init true true 1) tr) /\ In RCheck (stops s) /\
+            forall tr, ~ In RDone (stops (run true true s tr)) /\ log (run true true s tr) <> accepted (run true true s tr).
 Proof.
-  exists (run true (init true true 1) [APost 0; AAppDie; AResetStart 0]). split; [eexists; reflexivity|].
+  exists (run true true (init true true 1) [APost 0; AAppDie; AResetStart 0]). split; [eexists; reflexivity|].
   split; [left; reflexivity|]. intros tr.
-  assert (I0 : Inv (run true (init true true 1) [APost 0; AAppDie; AResetStart 0])) by apply run_inv.
-  assert (S0 : stuck_b (run true (init true true 1) [APost 0; AAppDie; AResetStart 0]) = true) by reflexivity.
+  assert (I0 : Inv (run true true (init true true 1) [APost 0; AAppDie; AResetStart 0])) by apply run_inv.
+  assert (S0 : stuck_b (run true true (init true true 1) [APost 0; AAppDie; AResetStart 0]) = true) by reflexivity.
   destruct (stuck_forever tr _ I0 S0) as (S & Hw & Hr). split; [exact Hr|].
   pose proof (run_inv_from tr _ I0) as I. apply stuck_b_spec in S. destruct S as (_ & _ & Hi & Hq).
   intros E. rewrite (i_acc _ I), Hi in E. cbn in E.
@@ -395,27 +395,27 @@ Proof.
 Qed.
 
 Theorem reset_hangs_with_no_app_ever :
-  forall tr, ~ In RDone (stops (run true (run true (init false true 1) [APost 0; AResetStart 0]) tr)).
+  forall tr, ~ In RDone (stops (run true true (run true true (init false true 1) [APost 0; AResetStart 0]) tr)).
 Proof.
   intros tr.
-  assert (I0 : Inv (run true (init false true 1) [APost 0; AResetStart 0])) by apply run_inv.
-  assert (S0 : stuck_b (run true (init false true 1) [APost 0; AResetStart 0]) = true) by reflexivity.
+  assert (I0 : Inv (run true true (init false true 1) [APost 0; AResetStart 0])) by apply run_inv.
+  assert (S0 : stuck_b (run true true (init false true 1) [APost 0; AResetStart 0]) = true) by reflexivity.
   apply (stuck_forever tr _ I0 S0).
 Qed.
 
 (* ------------------------------------------------------------------ termination, app alive --- *)
-Lemma worker_step_decreases rc s a s' : (a = ATake \/ a = ADone) -> step rc s a = Some s' -> mu s' < mu s.
+Lemma worker_step_decreases rc du s a s' : (a = ATake \/ exists ok, a = ADone ok) -> step rc du s a = Some s' -> mu s' < mu s.
 Proof.
-  intros [->| ->] H; cbn [step] in H; unfold mu.
+  intros [->| [ok ->]] H; cbn [step] in H; unfold mu.
   - destruct (app s), (worker s), (inflight s), (queue s); try discriminate. injection H as <-. cbn. lia.
   - destruct (inflight s) eqn:E; [|discriminate]. injection H as <-. cbn. lia.
 Qed.
 
 Lemma worker_step_enabled s : Inv s -> app s = true -> 0 < mu s ->
-  exists a s', (a = ATake \/ a = ADone) /\ step true s a = Some s'.
+  exists a s', (a = ATake \/ exists ok, a = ADone ok) /\ step true true s a = Some s'.
 Proof.
   intros I Ha Hm. unfold mu in Hm. destruct (inflight s) as [m|] eqn:Ei.
-  - exists ADone. eexists. split; [right; reflexivity|]. cbn [step]. rewrite Ei. reflexivity.
+  - exists (ADone true). eexists. split; [right; exists true; reflexivity|]. cbn [step]. rewrite Ei. reflexivity.
   - destruct (queue s) as [|m q] eqn:Eq; [cbn in Hm; lia|].
     assert (Hw : worker s = true).
     { destruct (worker s) eqn:Ew; [reflexivity|]. destruct (i_now s I Ew) as [Hq _]. rewrite Eq in Hq. discriminate. }
@@ -423,7 +423,7 @@ Proof.
 Qed.
 
 Lemma check_finishes s i : Inv s -> nth_error (stops s) i = Some RCheck -> mu s = 0 ->
-  exists s', step true s (AResetCheck i) = Some s' /\ nth_error (stops s') i = Some RDone /\ worker s' = false /\
+  exists s', step true true s (AResetCheck i) = Some s' /\ nth_error (stops s') i = Some RDone /\ worker s' = false /\
              mtx s' = false /\ log s' = accepted s'.
 Proof.
   intros I Hr Hm. cbn [step]. rewrite Hr. rewrite (i_rw s I (nth_in _ _ _ Hr)).
@@ -435,7 +435,7 @@ Proof.
 Qed.
 
 Lemma check_waits s i : Inv s -> nth_error (stops s) i = Some RCheck -> 0 < mu s ->
-  exists s', step true s (AResetCheck i) = Some s' /\ nth_error (stops s') i = Some RSleep /\ worker s' = true /\ mtx s' = false.
+  exists s', step true true s (AResetCheck i) = Some s' /\ nth_error (stops s') i = Some RSleep /\ worker s' = true /\ mtx s' = false.
 Proof.
   intros I Hr Hm. cbn [step]. rewrite Hr. rewrite (i_rw s I (nth_in _ _ _ Hr)).
   assert (0 < pending s) by (rewrite (i_pend s I); unfold mu in Hm; lia).
@@ -443,35 +443,35 @@ Proof.
   split; [eapply nth_upd_same; eassumption|auto].
 Qed.
 
-Lemma drain_run rc q : forall p m r l acc,
-  run_strict rc (mk_st true true q None p m r l acc) (drain_schedule (length q))
+Lemma drain_run rc du q : forall p m r l acc,
+  run_strict rc du (mk_st true true q None p m r l acc) (drain_schedule (length q))
   = Some (mk_st true true [] None (p - length q) m r (l ++ q) acc).
 Proof.
   induction q as [|x q IH]; intros p m r l acc; cbn [length drain_schedule run_strict].
   - rewrite Nat.sub_0_r, app_nil_r. reflexivity.
   - cbn [step app worker inflight queue pending mtx stops log accepted].
-    rewrite IH. f_equal. f_equal; [destruct p; cbn; lia|rewrite <- app_assoc; reflexivity].
+    rewrite Bool.orb_true_r. rewrite IH. f_equal. f_equal; [destruct p; cbn; lia|rewrite <- app_assoc; reflexivity].
 Qed.
 Lemma drain_length q : length (drain_schedule q) = 2 * q.
 Proof. induction q; cbn; [reflexivity|rewrite IHq; lia]. Qed.
 
 (* phase 1: with the application alive the worker empties the backlog in mu steps *)
 Lemma backlog_drains s : Inv s -> app s = true ->
-  exists tr s', run_strict true s tr = Some s' /\ pending s' = 0 /\ stops s' = stops s /\
+  exists tr s', run_strict true true s tr = Some s' /\ pending s' = 0 /\ stops s' = stops s /\
                 accepted s' = accepted s /\ length tr = mu s.
 Proof.
   intros I Ha. pose proof (i_acc s I) as Hacc. pose proof (i_pend s I) as Hp. pose proof (i_now s I) as Hn.
   destruct s as [a w q i p m r l acc]. cbn in *. subst a. unfold mu. cbn [queue inflight].
   destruct w.
-  - assert (Hdone : exists p' l', run_strict true (mk_st true true q i p m r l acc)
-                                     (match i with Some _ => [ADone] | None => [] end)
+  - assert (Hdone : exists p' l', run_strict true true (mk_st true true q i p m r l acc)
+                                     (match i with Some _ => [ADone true] | None => [] end)
                                   = Some (mk_st true true q None p' m r l' acc) /\ p' = length q).
     { destruct i as [x|]; cbn.
       - exists (pred p), (l ++ [x]). split; [reflexivity|cbn in Hp; lia].
       - exists p, l. split; [reflexivity|cbn in Hp; lia]. }
     destruct Hdone as (p' & l' & H1 & Hp').
-    exists ((match i with Some _ => [ADone] | None => [] end) ++ drain_schedule (length q)). eexists.
-    split; [rewrite (run_strict_app _ _ _ _ _ H1); apply drain_run|]. cbn.
+    exists ((match i with Some _ => [ADone true] | None => [] end) ++ drain_schedule (length q)). eexists.
+    split; [rewrite (run_strict_app _ _ _ _ _ _ H1); apply drain_run|]. cbn.
     repeat split; [lia|]. rewrite app_length, drain_length. destruct i; cbn; lia.
   - destruct (Hn eq_refl) as [-> ->]. cbn in Hp. exists []. eexists. split; [reflexivity|]. cbn. auto.
 Qed.
@@ -480,7 +480,7 @@ Qed.
    mutex quits/clears, the sleepers wake up and either do the same (a thread exists again) or find
    no thread and return.  sm = 2*sleepers + checkers bounds the number of steps *)
 Lemma stoppers_finish n : forall s, Inv s -> pending s = 0 -> sm (stops s) <= n ->
-  exists tr s', run_strict true s tr = Some s' /\ sm (stops s') = 0 /\ pending s' = 0 /\
+  exists tr s', run_strict true true s tr = Some s' /\ sm (stops s') = 0 /\ pending s' = 0 /\
                 accepted s' = accepted s /\ length tr <= sm (stops s).
 Proof.
   induction n as [|n IH]; intros s I Hp Hs.
@@ -491,7 +491,7 @@ Proof.
     + (* the mutex holder finishes *)
       assert (Hin : In RCheck (stops s)) by (apply cc_pos; lia).
       destruct (In_nth_error _ _ Hin) as [i Hi].
-      assert (E : step true s (AResetCheck i)
+      assert (E : step true true s (AResetCheck i)
                   = Some (mk_st (app s) false (queue s) (inflight s) (pending s) false (upd (stops s) i RDone) (log s) (accepted s))).
       { cbn [step]. rewrite Hi, (i_rw s I Hin), Hp. reflexivity. }
       pose proof (sm_upd _ _ _ RDone Hi) as Su. cbn in Su.
@@ -502,13 +502,13 @@ Proof.
       destruct (sleeper_exists _ Hm ltac:(lia)) as [i Hi].
       pose proof (sm_upd _ _ _ RCheck Hi) as S1. pose proof (sm_upd _ _ _ RDone Hi) as S2. cbn in S1, S2.
       destruct (worker s) eqn:Ew.
-      * assert (E : step true s (AResetWake i)
+      * assert (E : step true true s (AResetWake i)
                     = Some (mk_st (app s) true (queue s) (inflight s) (pending s) true (upd (stops s) i RCheck) (log s) (accepted s))).
         { cbn [step]. rewrite Hi, Em, Ew. reflexivity. }
         destruct (IH _ (step_inv _ _ _ I E) Hp ltac:(cbn; lia)) as (tr & s' & Hr & Hs' & Hp' & Ha' & Hl).
         exists (AResetWake i :: tr). exists s'. cbn [run_strict]. rewrite E. cbn in *.
         repeat split; try assumption. lia.
-      * assert (E : step true s (AResetWake i)
+      * assert (E : step true true s (AResetWake i)
                     = Some (mk_st (app s) false (queue s) (inflight s) (pending s) false (upd (stops s) i RDone) (log s) (accepted s))).
         { cbn [step]. rewrite Hi, Em, Ew. reflexivity. }
         destruct (IH _ (step_inv _ _ _ I E) Hp ltac:(cbn; lia)) as (tr & s' & Hr & Hs' & Hp' & Ha' & Hl).
@@ -530,7 +530,7 @@ Qed.
    matters outside the model: hence _partial.) *)
 Theorem all_stops_terminate_partial s :
   Inv s -> app s = true ->
-  exists tr s', run_strict true s tr = Some s' /\ (forall r, In r (stops s') -> is_active r = false) /\
+  exists tr s', run_strict true true s tr = Some s' /\ (forall r, In r (stops s') -> is_active r = false) /\
                 log s' = accepted s' /\ accepted s' = accepted s /\ errorb s' = false /\
                 length tr <= mu s + sm (stops s).
 Proof.
@@ -538,7 +538,7 @@ Proof.
   pose proof (strict_inv _ _ _ I H1) as I1.
   destruct (stoppers_finish _ s1 I1 Hp1 (le_n _)) as (t2 & s2 & H2 & Hs2 & Hp2 & Ha2 & Hl2).
   pose proof (strict_inv _ _ _ I1 H2) as I2.
-  exists (t1 ++ t2). exists s2. split; [rewrite (run_strict_app _ _ _ _ _ H1); exact H2|].
+  exists (t1 ++ t2). exists s2. split; [rewrite (run_strict_app _ _ _ _ _ _ H1); exact H2|].
   split; [apply sm_zero_inactive; exact Hs2|]. split; [apply (inv_pending0 _ I2 Hp2)|].
   split; [congruence|]. split; [apply errorb_false; apply (i_noerr _ I2)|].
   rewrite app_length. rewrite Hs1 in Hl2. lia.
@@ -556,67 +556,67 @@ Ltac one_step E act :=
   match goal with H : _ = Some _ |- _ => idtac end;
   exists [act]; cbn [run_strict]; rewrite E; reflexivity.
 
-Lemma astep_sound rc a e a' : astep rc a e = Some a' -> exists tr, run_strict rc (ms a) tr = Some (ms a').
+Lemma astep_sound rc du a e a' : astep rc du a e = Some a' -> exists tr, run_strict rc du (ms a) tr = Some (ms a').
 Proof.
   unfold astep. intros H. destruct e.
   - destruct (mem m (accepted (ms a))); [discriminate|].
     destruct (negb (worker (ms a)) && negb (list_eqb (log (ms a)) (obs a))); [discriminate|].
-    destruct (step rc (ms a) (APost m)) eqn:E; [|discriminate]. injection H as <-. one_step E (APost m).
-  - destruct (step rc (ms a) ATake) eqn:E; [|discriminate]. injection H as <-. one_step E ATake.
+    destruct (step rc du (ms a) (APost m)) eqn:E; [|discriminate]. injection H as <-. one_step E (APost m).
+  - destruct (step rc du (ms a) ATake) eqn:E; [|discriminate]. injection H as <-. one_step E ATake.
   - destruct sync.
     + destruct (negb (worker (ms a)) && list_eqb (log (ms a)) (obs a ++ [m])); [|discriminate].
       injection H as <-. exists []. reflexivity.
     + destruct (inflight (ms a)); [|discriminate].
       destruct (Nat.eqb m n && list_eqb (log (ms a)) (obs a)); [|discriminate].
       injection H as <-. exists []. reflexivity.
-  - destruct (step rc (ms a) ADone) eqn:E; [|discriminate].
-    destruct (list_eqb (log s) (obs a)); [|discriminate]. injection H as <-. one_step E ADone.
+  - destruct (step rc du (ms a) (ADone ok)) eqn:E; [|discriminate].
+    destruct (list_eqb (log s) (obs a)); [|discriminate]. injection H as <-. one_step E (ADone ok).
   - destruct (worker (ms a)); [|discriminate].
-    destruct (step rc (ms a) (AResetStart i)) eqn:E; [|discriminate]. injection H as <-. one_step E (AResetStart i).
-  - destruct (run_strict rc (ms a) (wake_if_asleep (ms a) i ++ [AResetCheck i])) eqn:E; [|discriminate].
+    destruct (step rc du (ms a) (AResetStart i)) eqn:E; [|discriminate]. injection H as <-. one_step E (AResetStart i).
+  - destruct (run_strict rc du (ms a) (wake_if_asleep (ms a) i ++ [AResetCheck i])) eqn:E; [|discriminate].
     destruct (nth_error (stops s) i) as [r|]; [|discriminate]. destruct r; try discriminate.
     injection H as <-. eexists. exact E.
-  - destruct (run_strict rc (ms a) (wake_if_asleep (ms a) i ++ [AResetCheck i])) eqn:E; [|discriminate].
+  - destruct (run_strict rc du (ms a) (wake_if_asleep (ms a) i ++ [AResetCheck i])) eqn:E; [|discriminate].
     destruct (nth_error (stops s) i) as [r|]; [|discriminate]. destruct r; try discriminate.
     destruct (list_eqb (obs a) (accepted s)); [|discriminate]. injection H as <-. eexists. exact E.
   - destruct (nth_error (stops (ms a)) i) as [r|]; [|discriminate]. destruct r; try discriminate.
     + destruct (worker (ms a)); [discriminate|].
-      destruct (step rc (ms a) (AResetStart i)) eqn:E; [|discriminate]. injection H as <-. one_step E (AResetStart i).
+      destruct (step rc du (ms a) (AResetStart i)) eqn:E; [|discriminate]. injection H as <-. one_step E (AResetStart i).
     + destruct (worker (ms a)); [discriminate|].
-      destruct (step rc (ms a) (AResetWake i)) eqn:E; [|discriminate].
+      destruct (step rc du (ms a) (AResetWake i)) eqn:E; [|discriminate].
       destruct (nth_error (stops s) i) as [r|]; [|discriminate]. destruct r; try discriminate.
       injection H as <-. one_step E (AResetWake i).
     + injection H as <-. exists []. reflexivity.
-  - destruct (step rc (ms a) AAppDie) eqn:E; [|discriminate]. injection H as <-. one_step E AAppDie.
+  - destruct (step rc du (ms a) AAppDie) eqn:E; [|discriminate]. injection H as <-. one_step E AAppDie.
   - destruct (worker (ms a)).
     + injection H as <-. exists []. reflexivity.
     + destruct (list_eqb (log (ms a)) (obs a)); [|discriminate].
-      destruct (step rc (ms a) AMove) eqn:E; [|discriminate]. injection H as <-. one_step E AMove.
+      destruct (step rc du (ms a) AMove) eqn:E; [|discriminate]. injection H as <-. one_step E AMove.
   - destruct (mem m (accepted (ms a))); [|discriminate]. injection H as <-. exists []. reflexivity.
   - destruct (negb (worker (ms a)) && list_eqb (obs a) (accepted (ms a))); [|discriminate].
     injection H as <-. exists []. reflexivity.
 Qed.
 
-Lemma accept_from_sound rc evs : forall k a a', accept_from rc k a evs = Accepted a' ->
-  exists tr, run_strict rc (ms a) tr = Some (ms a').
+Lemma accept_from_sound rc du evs : forall k a a', accept_from rc du k a evs = Accepted a' ->
+  exists tr, run_strict rc du (ms a) tr = Some (ms a').
 Proof.
   induction evs as [|e r IH]; intros k a a' H; cbn [accept_from] in H.
   - injection H as <-. exists []. reflexivity.
-  - destruct (astep rc a e) eqn:E; [|discriminate].
-    destruct (astep_sound _ _ _ _ E) as [t1 H1]. destruct (IH _ _ _ H) as [t2 H2].
-    exists (t1 ++ t2). rewrite (run_strict_app _ _ _ _ _ H1). exact H2.
+  - destruct (astep rc du a e) eqn:E; [|discriminate].
+    destruct (astep_sound _ _ _ _ _ E) as [t1 H1]. destruct (IH _ _ _ H) as [t2 H2].
+    exists (t1 ++ t2). rewrite (run_strict_app _ _ _ _ _ _ H1). exact H2.
 Qed.
 
 (* an accepted recording is a run of the model in which every action was enabled; the state the
    acceptor ends in is therefore reachable, satisfies the invariant, has no stopper in the error
    state *)
 Theorem accept_sound app0 w0 k evs a :
-  accept_shutdown true app0 w0 k evs = Accepted a ->
-  (exists tr, run_strict true (init app0 w0 k) tr = Some (ms a) /\ ms a = run true (init app0 w0 k) tr)
+  accept_shutdown true true app0 w0 k evs = Accepted a ->
+  (exists tr, run_strict true true (init app0 w0 k) tr = Some (ms a) /\ ms a = run true true (init app0 w0 k) tr)
   /\ Inv (ms a) /\ errorb (ms a) = false.
 Proof.
-  intros H. destruct (accept_from_sound _ _ _ _ _ H) as [tr Htr]. cbn [ms] in Htr.
-  pose proof (run_strict_run _ _ _ _ Htr) as Hr.
+  intros H. destruct (accept_from_sound _ _ _ _ _ _ H) as [tr Htr]. cbn [ms] in Htr.
+  pose proof (run_strict_run _ _ _ _ _ Htr) as Hr.
   assert (I : Inv (ms a)) by (rewrite <- Hr; apply run_inv). split; [|split; [exact I|]].
   - exists tr. split; [exact Htr|symmetry; exact Hr].
   - apply errorb_false. apply (i_noerr _ I).
@@ -631,20 +631,20 @@ Definition AInv (a : acc) : Prop :=
 Definition reset_act (a : act) : Prop :=
   match a with AResetStart _ | AResetCheck _ | AResetWake _ | AAppDie => True | _ => False end.
 
-Lemma reset_step_keeps rc s a s' : reset_act a -> step rc s a = Some s' ->
+Lemma reset_step_keeps rc du s a s' : reset_act a -> step rc du s a = Some s' ->
   log s' = log s /\ inflight s' = inflight s /\ (worker s = false -> worker s' = false) /\ accepted s' = accepted s.
 Proof.
   intros Hr E. destruct a; cbn in Hr; try contradiction; step_cases E; injection E as <-; cbn; auto.
 Qed.
 
-Lemma reset_steps_keep rc tr : forall s s',
-  (forall a, In a tr -> reset_act a) -> run_strict rc s tr = Some s' ->
+Lemma reset_steps_keep rc du tr : forall s s',
+  (forall a, In a tr -> reset_act a) -> run_strict rc du s tr = Some s' ->
   log s' = log s /\ inflight s' = inflight s /\ (worker s = false -> worker s' = false) /\ accepted s' = accepted s.
 Proof.
   induction tr as [|a r IH]; intros s s' Hin H; cbn [run_strict] in H.
   - injection H as <-. auto.
-  - destruct (step rc s a) eqn:E; [|discriminate].
-    destruct (reset_step_keeps _ _ _ _ (Hin a (or_introl eq_refl)) E) as (K1 & K2 & K3 & K4).
+  - destruct (step rc du s a) eqn:E; [|discriminate].
+    destruct (reset_step_keeps _ _ _ _ _ (Hin a (or_introl eq_refl)) E) as (K1 & K2 & K3 & K4).
     destruct (IH s0 s' (fun x Hx => Hin x (or_intror Hx)) H) as (J1 & J2 & J3 & J4).
     repeat split; try congruence. auto.
 Qed.
@@ -664,30 +664,30 @@ Proof.
   right; right. exists x. split; [apply K3; exact A1|exact A2].
 Qed.
 
-Lemma one_reset_step rc s act s' : step rc s act = Some s' -> run_strict rc s [act] = Some s'.
+Lemma one_reset_step rc du s act s' : step rc du s act = Some s' -> run_strict rc du s [act] = Some s'.
 Proof. intros E. cbn [run_strict]. rewrite E. reflexivity. Qed.
 
 Ltac keep E :=
   let K := fresh "K" in
-  pose proof (fun R => reset_step_keeps _ _ _ _ R E) as K; cbn [reset_act] in K;
+  pose proof (fun R => reset_step_keeps _ _ _ _ _ R E) as K; cbn [reset_act] in K;
   destruct (K Logic.I) as (K1 & K2 & K3 & K4).
 
-Lemma astep_ainv a e a' : Inv (ms a) -> AInv a -> astep true a e = Some a' -> AInv a'.
+Lemma astep_ainv a e a' : Inv (ms a) -> AInv a -> astep true true a e = Some a' -> AInv a'.
 Proof.
   unfold astep. intros I A H. destruct e.
   - (* post *)
     unfold AInv in *. destruct (mem m (accepted (ms a))); [discriminate|].
     destruct (worker (ms a)) eqn:Ew; cbn [negb andb] in H.
-    + destruct (step true (ms a) (APost m)) eqn:E; [|discriminate]. injection H as <-. cbn [ms obs].
+    + destruct (step true true (ms a) (APost m)) eqn:E; [|discriminate]. injection H as <-. cbn [ms obs].
       cbn [step] in E. destruct (mtx (ms a)); [discriminate|]. rewrite Ew in E. injection E as <-. cbn.
       destruct A as [A|[A|[x [A _]]]]; [left; exact A|right; left; exact A|discriminate].
     + destruct (list_eqb (log (ms a)) (obs a)) eqn:El; cbn [negb] in H; [|discriminate].
       apply list_eqb_eq in El.
-      destruct (step true (ms a) (APost m)) eqn:E; [|discriminate]. injection H as <-. cbn [ms obs].
+      destruct (step true true (ms a) (APost m)) eqn:E; [|discriminate]. injection H as <-. cbn [ms obs].
       cbn [step] in E. destruct (mtx (ms a)); [discriminate|]. rewrite Ew in E. injection E as <-. cbn.
       right; right. exists m. split; [reflexivity|]. rewrite El. reflexivity.
   - (* take *)
-    unfold AInv in *. destruct (step true (ms a) ATake) eqn:E; [|discriminate]. injection H as <-. cbn [ms obs].
+    unfold AInv in *. destruct (step true true (ms a) ATake) eqn:E; [|discriminate]. injection H as <-. cbn [ms obs].
     cbn [step] in E. destruct (app (ms a)); [|discriminate]. destruct (worker (ms a)) eqn:Ew; [|discriminate].
     destruct (inflight (ms a)) eqn:Ei; [discriminate|]. destruct (queue (ms a)); [discriminate|].
     injection E as <-. cbn.
@@ -703,20 +703,20 @@ Proof.
       apply list_eqb_eq in El. injection H as <-. cbn [ms obs]. right; left. exists m.
       split; [exact Ei|]. rewrite El. reflexivity.
   - (* done *)
-    unfold AInv. destruct (step true (ms a) ADone) eqn:E; [|discriminate].
+    unfold AInv. destruct (step true true (ms a) (ADone ok)) eqn:E; [|discriminate].
     destruct (list_eqb (log s) (obs a)) eqn:El; [|discriminate]. apply list_eqb_eq in El.
     injection H as <-. cbn [ms obs]. left. symmetry. exact El.
   - (* reset locked *)
     destruct (worker (ms a)) eqn:Ew; [|discriminate].
-    destruct (step true (ms a) (AResetStart i)) eqn:E; [|discriminate]. injection H as <-.
+    destruct (step true true (ms a) (AResetStart i)) eqn:E; [|discriminate]. injection H as <-.
     keep E. apply ainv_keep; assumption.
   - (* waiting *)
-    destruct (run_strict true (ms a) (wake_if_asleep (ms a) i ++ [AResetCheck i])) eqn:E; [|discriminate].
+    destruct (run_strict true true (ms a) (wake_if_asleep (ms a) i ++ [AResetCheck i])) eqn:E; [|discriminate].
     destruct (nth_error (stops s) i) as [r|]; [|discriminate]. destruct r; try discriminate. injection H as <-.
     apply reset_steps_keep in E; [|apply wake_check_only]. destruct E as (K1 & K2 & K3 & K4).
     apply ainv_keep; assumption.
   - (* quit *)
-    destruct (run_strict true (ms a) (wake_if_asleep (ms a) i ++ [AResetCheck i])) eqn:E; [|discriminate].
+    destruct (run_strict true true (ms a) (wake_if_asleep (ms a) i ++ [AResetCheck i])) eqn:E; [|discriminate].
     destruct (nth_error (stops s) i) as [r|]; [|discriminate]. destruct r; try discriminate.
     destruct (list_eqb (obs a) (accepted s)); [|discriminate]. injection H as <-.
     apply reset_steps_keep in E; [|apply wake_check_only]. destruct E as (K1 & K2 & K3 & K4).
@@ -724,40 +724,40 @@ Proof.
   - (* stop end *)
     destruct (nth_error (stops (ms a)) i) as [r|]; [|discriminate]. destruct r; try discriminate.
     + destruct (worker (ms a)) eqn:Ew; [discriminate|].
-      destruct (step true (ms a) (AResetStart i)) eqn:E; [|discriminate]. injection H as <-.
+      destruct (step true true (ms a) (AResetStart i)) eqn:E; [|discriminate]. injection H as <-.
       keep E. apply ainv_keep; assumption.
     + destruct (worker (ms a)) eqn:Ew; [discriminate|].
-      destruct (step true (ms a) (AResetWake i)) eqn:E; [|discriminate].
+      destruct (step true true (ms a) (AResetWake i)) eqn:E; [|discriminate].
       destruct (nth_error (stops s) i) as [r|]; [|discriminate]. destruct r; try discriminate.
       injection H as <-.
       keep E. apply ainv_keep; assumption.
     + injection H as <-. exact A.
   - (* app gone *)
-    destruct (step true (ms a) AAppDie) eqn:E; [|discriminate]. injection H as <-.
+    destruct (step true true (ms a) AAppDie) eqn:E; [|discriminate]. injection H as <-.
     keep E. apply ainv_keep; assumption.
   - (* move *)
     destruct (worker (ms a)) eqn:Ew.
     + injection H as <-. exact A.
     + destruct (list_eqb (log (ms a)) (obs a)) eqn:El; [|discriminate]. apply list_eqb_eq in El.
-      destruct (step true (ms a) AMove) eqn:E; [|discriminate]. injection H as <-. unfold AInv. cbn [ms obs].
+      destruct (step true true (ms a) AMove) eqn:E; [|discriminate]. injection H as <-. unfold AInv. cbn [ms obs].
       left. step_cases E. injection E as <-. cbn. symmetry. exact El.
   - destruct (mem m (accepted (ms a))); [|discriminate]. injection H as <-. exact A.
   - destruct (negb (worker (ms a)) && list_eqb (obs a) (accepted (ms a))); [|discriminate].
     injection H as <-. exact A.
 Qed.
 
-Lemma accept_from_ainv evs : forall k a a', Inv (ms a) -> AInv a -> accept_from true k a evs = Accepted a' ->
+Lemma accept_from_ainv evs : forall k a a', Inv (ms a) -> AInv a -> accept_from true true k a evs = Accepted a' ->
   Inv (ms a') /\ AInv a'.
 Proof.
   induction evs as [|e r IH]; intros k a a' I A H; cbn [accept_from] in H.
   - injection H as <-. auto.
-  - destruct (astep true a e) eqn:E; [|discriminate].
-    destruct (astep_sound _ _ _ _ E) as [t Ht]. apply run_strict_run in Ht.
+  - destruct (astep true true a e) eqn:E; [|discriminate].
+    destruct (astep_sound _ _ _ _ _ E) as [t Ht]. apply run_strict_run in Ht.
     apply (IH (S k) a0 a'); [rewrite <- Ht; apply run_inv_from; exact I|eapply astep_ainv; eassumption|exact H].
 Qed.
 
 Theorem accept_obs_prefix app0 w0 k evs a :
-  accept_shutdown true app0 w0 k evs = Accepted a -> exists rest, accepted (ms a) = obs a ++ rest.
+  accept_shutdown true true app0 w0 k evs = Accepted a -> exists rest, accepted (ms a) = obs a ++ rest.
 Proof.
   intros H. unfold accept_shutdown in H.
   destruct (accept_from_ainv evs 0 (mk_acc (init app0 w0 k) []) a (init_inv app0 w0 k) (or_introl eq_refl) H) as [I A].
@@ -768,8 +768,8 @@ Proof.
     exists [m]. rewrite Hacc. exact A2.
 Qed.
 
-Theorem accept_exit_complete rc app0 w0 k evs a :
-  accept_shutdown rc app0 w0 k (evs ++ [EExit]) = Accepted a -> obs a = accepted (ms a) /\ worker (ms a) = false.
+Theorem accept_exit_complete rc du app0 w0 k evs a :
+  accept_shutdown rc du app0 w0 k (evs ++ [EExit]) = Accepted a -> obs a = accepted (ms a) /\ worker (ms a) = false.
 Proof.
   unfold accept_shutdown. generalize (mk_acc (init app0 w0 k) []) as a0. generalize 0 as n.
   induction evs as [|e r IH]; intros n a0 H; cbn [List.app accept_from] in H.
@@ -777,7 +777,7 @@ Proof.
     destruct (worker (ms a0)) eqn:Ew; cbn [negb andb] in H; [discriminate|].
     destruct (list_eqb (obs a0) (accepted (ms a0))) eqn:El; [|discriminate].
     injection H as <-. apply list_eqb_eq in El. auto.
-  - destruct (astep rc a0 e); [|discriminate]. eapply IH. exact H.
+  - destruct (astep rc du a0 e); [|discriminate]. eapply IH. exact H.
 Qed.
 
 Lemma prefix_b_spec a : forall b, prefix_b a b = true <-> exists rest, b = a ++ rest.
@@ -792,9 +792,92 @@ Proof.
 Qed.
 
 Theorem oracle_holds a w k tr :
-  let s := run true (init a w k) tr in prop_c04_b (accepted s) (log s) (negb (worker s)) = true.
+  let s := run true true (init a w k) tr in prop_c04_b (accepted s) (log s) (negb (worker s)) = true.
 Proof.
   intros s. unfold prop_c04_b. destruct (worker s) eqn:Ew; cbn [negb].
   - apply prefix_b_spec. apply log_prefix.
   - apply list_eqb_eq. apply drained_when_stopped. exact Ew.
+Qed.
+
+(* ------------------------------------------------------------------ rejecting handlers -------- *)
+(* OwnThreadHandler<> may wrap any Handler; process() of a filter-like handler returns false for a
+   message it rejects.  The worker discards that result (du = true): *)
+Theorem done_ignores_verdict rc s ok : step rc true s (ADone ok) = step rc true s (ADone true).
+Proof. reflexivity. Qed.
+
+Theorem rejected_is_counted_down rc s ok s' : step rc true s (ADone ok) = Some s' ->
+  exists m, inflight s = Some m /\ inflight s' = None /\ pending s' = pred (pending s) /\
+            log s' = log s ++ [m] /\ queue s' = queue s /\ accepted s' = accepted s /\ stops s' = stops s.
+Proof.
+  cbn [step]. destruct (inflight s) as [m|]; [|discriminate]. intros H. injection H as <-.
+  exists m. cbn. repeat split.
+Qed.
+
+Lemma run_done_verdicts_irrelevant rc tr : forall s,
+  run rc true s (map (fun a => match a with ADone _ => ADone true | x => x end) tr) = run rc true s tr.
+Proof.
+  induction tr as [|a r IH]; intros s; cbn [map run]; [reflexivity|].
+  destruct a; try (destruct (step rc true s _); apply IH).
+Qed.
+
+Lemma leaked_b_spec s : leaked_b s = true <->
+  worker s = true /\ length (queue s) + length (opt_list (inflight s)) < pending s.
+Proof.
+  unfold leaked_b. rewrite andb_true_iff, Nat.ltb_lt. tauto.
+Qed.
+
+(* with du = true no count ever leaks *)
+Theorem never_leaks a w k tr : leaked_b (run true true (init a w k) tr) = false.
+Proof.
+  pose proof (run_inv a w k tr) as I. destruct (leaked_b _) eqn:E; [|reflexivity].
+  apply leaked_b_spec in E. destruct E as [_ E]. rewrite (i_pend _ I) in E. lia.
+Qed.
+
+(* a leaked count stays leaked, whatever happens next and whatever the switches are: the loop test
+   of a stop never sees zero, the worker is never stopped, no stop call returns *)
+Definition Leak (s : st) : Prop := leaked_b s = true /\ ~ In RDone (stops s).
+
+Lemma leak_step rc du s a s' : Leak s -> step rc du s a = Some s' -> Leak s'.
+Proof.
+  intros [L Hd] H. apply leaked_b_spec in L. destruct L as [Hw Hl]. unfold Leak. rewrite leaked_b_spec.
+  destruct a; cbn [step] in H.
+  - destruct (mtx s); [discriminate|]. rewrite Hw in H. injection H as <-. cbn. rewrite app_length. cbn.
+    repeat split; [lia|exact Hd].
+  - destruct (app s); [|discriminate]. rewrite Hw in H. destruct (inflight s) eqn:Ei; [discriminate|].
+    destruct (queue s) eqn:Eq; [discriminate|]. injection H as <-. cbn in *. repeat split; [lia|exact Hd].
+  - destruct (inflight s) eqn:Ei; [|discriminate]. injection H as <-. cbn in *.
+    repeat split; [exact Hw|destruct (du || ok); lia|exact Hd].
+  - destruct (nth_error (stops s) i) as [r|] eqn:En; [|discriminate].
+    destruct (startable r && negb (mtx s)); [|discriminate]. rewrite Hw in H. injection H as <-. cbn.
+    repeat split; [exact Hl|]. intros Hx. apply in_upd in Hx. destruct Hx as [Hx|Hx]; [discriminate|auto].
+  - destruct (nth_error (stops s) i) as [r|] eqn:En; [|discriminate]. destruct r; try discriminate.
+    rewrite Hw in H. destruct (Nat.ltb_spec 0 (pending s)); [|lia]. injection H as <-. cbn.
+    repeat split; [exact Hl|]. intros Hx. apply in_upd in Hx. destruct Hx as [Hx|Hx]; [discriminate|auto].
+  - destruct (nth_error (stops s) i) as [r|] eqn:En; [|discriminate]. destruct r; try discriminate.
+    destruct (mtx s); [discriminate|]. rewrite Hw in H. cbn [orb] in H. injection H as <-. cbn.
+    repeat split; [exact Hl|]. intros Hx. apply in_upd in Hx. destruct Hx as [Hx|Hx]; [discriminate|auto].
+  - injection H as <-. cbn. repeat split; assumption.
+  - destruct (mtx s); [discriminate|]. rewrite Hw in H. injection H as <-. repeat split; assumption.
+Qed.
+
+Theorem leak_forever rc du tr : forall s, Leak s -> Leak (run rc du s tr).
+Proof.
+  induction tr as [|a r IH]; intros s L; cbn [run]; [exact L|].
+  destruct (step rc du s a) eqn:E; [apply IH; eapply leak_step; eassumption|apply IH; exact L].
+Qed.
+
+(* ... and why the unconditional decrement matters: were customEvent to leave early when the wrapped
+   handler rejects (early_return_skeleton: the switch computes to false), then after ONE rejected
+   message — which the handler has seen: log = accepted, nothing queued, nothing in hand — no
+   continuation whatsoever lets a stop call return *)
+Definition rejecting_schedule : list act := [APost 0; APost 1; APost 2; ATake; ADone true; ATake; ADone false; ATake; ADone true; AResetStart 0].
+Theorem stop_after_rejection_hangs_if_decrement_conditional :
+  dec_unconditional early_return_skeleton = false /\
+  exists s, run_strict true (dec_unconditional early_return_skeleton) (init true true 1) rejecting_schedule = Some s /\
+            log s = accepted s /\ queue s = [] /\ inflight s = None /\ app s = true /\ In RCheck (stops s) /\
+            forall rc tr, leaked_b (run rc false s tr) = true /\ ~ In RDone (stops (run rc false s tr)).
+Proof.
+  split; [reflexivity|]. eexists. split; [vm_compute; reflexivity|]. cbn.
+  repeat split; try reflexivity; [left; reflexivity| |]; apply (leak_forever rc false tr);
+    (split; [reflexivity|cbn; intros [H|[]]; discriminate]).
 Qed.
